@@ -60,7 +60,7 @@ func dencoStructural(c *Ctx, r2, r3, r4, r5 string) {
 	p := c.P
 	// order independence, static map
 	bld := p.Fn("(*rt/middleware/denco.doubleArray).build")
-	sorts := callsIn(bld, "sort.Stable", "sort.Sort")
+	sorts := callsIn(bld, "sort.Stable", "sort.Sort", "sort.SliceStable", "sort.Slice", "slices.SortFunc", "slices.SortStableFunc")
 	arr := callsIn(bld, "(*rt/middleware/denco.doubleArray).arrange")
 	okSort := len(sorts) >= 1 && len(arr) == 1
 	if okSort {
@@ -74,15 +74,22 @@ func dencoStructural(c *Ctx, r2, r3, r4, r5 string) {
 	c.obF(r2, bld, "sorted-before-arranged", okSort, "build sorts the records it was given before arranging siblings (the double array does not depend on insertion order)", "no sort of srcs dominating arrange")
 	fb := p.Fn("(*rt/middleware/denco.doubleArray).findBase")
 	used := fb.Params[3]
+	isUsed := func(v ssa.Value) bool {
+		if v == ssa.Value(used) {
+			return true
+		}
+		ok, _ := allOrigins(v, oIsValue(used)) // (the set handed to an add / has helper of a named set type)
+		return ok
+	}
 	isReserve := func(in ssa.Instruction) bool {
 		mu, ok := in.(*ssa.MapUpdate)
-		return ok && mu.Map == ssa.Value(used)
+		return ok && isUsed(mu.Map)
 	}
 	for _, r := range returnsOf(fb) {
 		miss := pathExists(fb, nil, r, nil, isReserve)
 		okKey := false
 		for _, in := range instrs(fb) {
-			if mu, ok := in.(*ssa.MapUpdate); ok && mu.Map == ssa.Value(used) {
+			if mu, ok := in.(*ssa.MapUpdate); ok && isUsed(mu.Map) {
 				okKey = sameOrigins(mu.Key, r.Results[0]) || mu.Key == r.Results[0]
 			}
 		}
@@ -91,7 +98,7 @@ func dencoStructural(c *Ctx, r2, r3, r4, r5 string) {
 	// skipping used bases
 	nUsedTest := 0
 	for _, in := range instrs(fb) {
-		if lk, ok := in.(*ssa.Lookup); ok && lk.X == ssa.Value(used) && lk.CommaOk {
+		if lk, ok := in.(*ssa.Lookup); ok && isUsed(lk.X) && lk.CommaOk {
 			nUsedTest++
 		}
 	}
@@ -123,6 +130,20 @@ func dencoStructural(c *Ctx, r2, r3, r4, r5 string) {
 		if okv := extractOf(staticLk, 1); okv != nil {
 			okFirst = okFirst && guardedBy(ci, staticLk, factBool(vIs(okv), false))
 		}
+	}
+	if staticLk != nil {
+		// a parameter-free pattern is found by its PRESENCE in the static map (comma-ok), whatever value it carries
+		okPresence := staticLk.CommaOk
+		if okPresence {
+			okv := extractOf(staticLk, 1)
+			okPresence = false
+			for _, r := range realReturns(rl) {
+				if okR, _ := allOrigins(resOf(r, 0), oIsValue(extractOf(staticLk, 0))); okR && okv != nil && guardedBy(r, staticLk, factBool(vIs(okv), true)) {
+					okPresence = true
+				}
+			}
+		}
+		c.obI(r2, staticLk, "static-hit-decided-by-presence", okPresence, "the static fast path answers 'found' exactly when the path is a key of the static map (comma-ok), not when the stored value happens to be non-nil", "the static hit is not decided by the map's comma-ok result: a pattern registered with a nil value is not found (a parameterised sibling can then win)")
 	}
 	c.obF(r2, rl, "static-first", okFirst, "Lookup consults the static map with the whole path first: a path equal to a parameter-free pattern returns that pattern's value", "")
 	mk := p.Fn("rt/middleware/denco.makeRecords")
@@ -230,6 +251,19 @@ func dencoStructural(c *Ctx, r2, r3, r4, r5 string) {
 		}
 		c.obI(r5, single[0], "wildcard-tried-for-every-candidate", ok, "for every candidate node of the backtracking loop, the wildcard alternative is examined whenever the single-parameter alternative did not return a match", "an iteration can move to the next candidate without testing IsWildcardParam")
 	}
+	// every parameter attempt extends the parameters this invocation was given — never what an earlier, failed attempt
+	// of the same invocation had appended
+	{
+		prm := paramOfType(lk, "[]rt/middleware/denco.Param")
+		for _, in := range instrs(lk) {
+			call, ok := in.(*ssa.Call)
+			if !ok || calleeName(&call.Call) != "builtin append" || typeStr(call.Type()) != "[]rt/middleware/denco.Param" {
+				continue
+			}
+			okB, bad := allOrigins(call.Call.Args[0], oIsValue(prm))
+			c.obI(r5, call, "attempt-extends-callers-params", okB && prm != nil, "each single-parameter or wildcard attempt appends its capture to the parameter list the invocation received (a failed attempt leaves nothing behind for the next candidate)", "the capture is appended to "+describeOrigin(bad))
+		}
+	}
 	// candidate stack only grows in the walk
 	for _, in := range instrs(lk) {
 		call, ok := in.(*ssa.Call)
@@ -252,5 +286,20 @@ func dencoStructural(c *Ctx, r2, r3, r4, r5 string) {
 		}
 		c.obI(r5, st, "names-by-position", ok, "the i-th captured value is named by the i-th placeholder name of the matched node", "")
 	}
-	c.min(r5, 4)
+	// the parameters handed back are this call's own memory, and whether a path is found does not depend on how much
+	// room the buffer has (SizeHint is a hint: a capacity test on the way would turn it into a limit)
+	ruleDencoParamsPerCall(c, r5)
+	for _, f := range []*ssa.Function{rl, lk} {
+		for _, ci := range callSitesUnder(f, "builtin cap") {
+			call := ci.In.(ssa.CallInstruction)
+			t := typeStr(call.Common().Args[0].Type())
+			if t != "[]rt/middleware/denco.Param" && t != "rt/middleware/denco.Params" {
+				continue
+			}
+			c.definite = true
+			c.obI(r5, ci.In, "outcome-independent-of-buffer-capacity", false, "the lookup never consults the capacity of the parameter buffer (append grows it; SizeHint only sizes the first allocation)", "cap(params) is consulted: a SizeHint below a pattern's placeholder count changes what is found")
+			c.definite = false
+		}
+	}
+	c.min(r5, 5)
 }
